@@ -326,6 +326,10 @@ func runCase(c c08Case) *vh.Failure {
 		flow = "plain"
 	}
 	where := fmt.Sprintf("%s flow, edit %q, R1 [%s] R2 [%s]", flow, c.Edit, respgen.Describe(c.Script.R1), respgen.Describe(c.Script.R2))
+	if c.Cfg.QueueSize != 0 {
+		where += fmt.Sprintf(", package queue size %d", map[bool]int{true: 0, false: c.Cfg.QueueSize}[c.Cfg.QueueSize < 0])
+		vh.Label("small-package-queue")
+	}
 	if res.Panic != nil {
 		cls := "C08/login-panics"
 		if strings.Contains(fmt.Sprint(res.Panic), "nil pointer") {
@@ -637,6 +641,14 @@ func TestSingleEditsExhaustive(t *testing.T) {
 						return
 					}
 				}
+				if n%2 == 0 && !s.Stall1 && !s.Stall2 {
+					// a tiny package queue: the reader has to wait for Login to take the packages
+					c := c08Case{Cfg: baseCfg(plain), Key: key, Script: s, Edit: ed.Label}
+					c.Cfg.QueueSize = []int{-1, 1}[n/2%2]
+					if !e.Do(c) {
+						return
+					}
+				}
 				if n%97 == 0 {
 					vh.Sample("single-edit", c08Case{Cfg: baseCfg(plain), Key: key, Script: s, Edit: ed.Label})
 				}
@@ -708,6 +720,7 @@ func TestRandomScripts(t *testing.T) {
 			st, _, _, _ := rc.EncodeStream(s.R2)
 			s.Cuts2 = respgen.Cuts(rt, len(st), false)
 		}
+		cfg.QueueSize = rapid.SampledFrom([]int{0, 0, -1, 1, 2, 5}).Draw(rt, "queuesize")
 		return c08Case{Cfg: cfg, Key: key, Script: s, Edit: label}
 	}
 	vh.Check(t, "TestRandomScripts", vh.N(600, 12000), gen, runCase)
